@@ -118,6 +118,7 @@ pub struct WorldC {
     pub(crate) last_group_obs: Option<crate::snaps::Cw4Snap>,
     pub(crate) last_full_obs: Option<Value>,
     pub(crate) bulk_addrs: Vec<String>,
+    pub(crate) expect_ballots: Vec<(usize, u64, String, String)>,
 }
 
 pub fn wasm_exec(contract: &str, msg: &Value, funds: Vec<Coin>) -> Value {
@@ -978,6 +979,7 @@ impl World for WorldC {
             last_group_obs: None,
             last_full_obs: None,
             bulk_addrs,
+            expect_ballots: vec![],
         };
         if !w.group_ok {
             w.meter.hit("group_instantiate_rejected");
